@@ -479,7 +479,6 @@ theorem termUnit_none (n K c : ℕ) (utilJ : List ℚ) (nullJ : ℚ) (vec : List
         else 0 := by
   unfold termUnit
   by_cases h1 : (vW c vec).sum = K <;> by_cases h2 : (vWo c vec).sum < K <;> simp [h1, h2]
-  all_goals (intros; omega)
 
 theorem sum_pairs {α β : Type} (l1 : List α) (l2 : List β) (x x' : α → ℚ) (y y' : β → ℚ) (w : ℚ) :
     ((l1.flatMap (fun s => l2.map (fun t => (s, t)))).map
@@ -547,5 +546,365 @@ theorem pairTerm_factor (p : Prov.P) (labels : List ℕ) (dist : List ℚ) (util
     simp only [selB, ← hT1, ← hT2, okB]
     by_cases h1 : rowPresent p (a.set i 1) t1 = true <;> by_cases h2 : rowPresent p a t2 = true <;>
       by_cases h3 : T1.sum = K <;> by_cases h4 : T2.sum = K <;> simp [h1, h2, h3, h4]
+
+/-- the boundaries `t2` ranges over -/
+def bnds (R : ℕ) : List (Option ℕ) := (List.range R).map some ++ [none]
+
+theorem boundaryPairs_eq (R : ℕ) :
+    boundaryPairs R = (List.range R).flatMap (fun t1 => (bnds R).map (fun t2 => (t1, t2))) := rfl
+
+theorem mem_boundaryPairs (R : ℕ) (tp : ℕ × Option ℕ) :
+    tp ∈ boundaryPairs R ↔ tp.1 < R ∧ ∀ t, tp.2 = some t → t < R := by
+  obtain ⟨t1, t2⟩ := tp
+  rw [boundaryPairs_eq]
+  simp only [bnds, List.mem_flatMap, List.mem_range, List.mem_map, List.mem_append, List.mem_singleton,
+    Prod.mk.injEq]
+  constructor
+  · rintro ⟨s, hs, t, ht, rfl, rfl⟩
+    refine ⟨hs, ?_⟩
+    rcases ht with ⟨u, hu, rfl⟩ | rfl
+    · intro t ht; cases ht; exact hu
+    · intro t ht; cases ht
+  · rintro ⟨h1, h2⟩
+    refine ⟨t1, h1, t2, ?_, rfl, rfl⟩
+    cases t2 with
+    | none => right; rfl
+    | some t => left; exact ⟨t, h2 t rfl, rfl⟩
+
+theorem sum_bnds (R : ℕ) (y : Option ℕ → ℚ) :
+    ((bnds R).map y).sum = ((List.range R).map (fun t => y (some t))).sum + y none := by
+  simp [bnds, List.map_append, List.sum_append, List.map_map, Function.comp_def]
+
+/-- **per-coalition identity**: for a fixed coalition the double loop over boundary pairs adds the
+marginal contribution of the target unit, weighted by `1 / C(n-1, |S|)` -/
+theorem contrib (p : Prov.P) (labels : List ℕ) (dist : List ℚ) (order : List ℕ) (utilJ : List ℚ) (nullJ : ℚ)
+    (c K i : ℕ) (a : List ℕ) (hK : 1 ≤ K) (hp : order.Perm (List.range p.data.length))
+    (hs : order.Pairwise (fun r s => dist.getD r 0 < dist.getD s 0))
+    (hlab : ∀ r < p.data.length, labels.getD r 0 < c) :
+    ((boundaryPairs p.data.length).map (pairTerm p labels dist utilJ nullJ c K i a)).sum
+      = (1 / ((choose (p.nUnits - 1) a.sum : ℕ) : ℚ)) *
+        (knnValue p labels order utilJ nullJ K c (a.set i 1) - knnValue p labels order utilJ nullJ K c a) := by
+  have e : (boundaryPairs p.data.length).map (pairTerm p labels dist utilJ nullJ c K i a)
+      = (boundaryPairs p.data.length).map (fun tp => (1 / ((choose (p.nUnits - 1) a.sum : ℕ) : ℚ)) *
+        ((fun t1 => selB p labels dist c K (a.set i 1) (fun T => utilJ.getD (argmaxFirst T) 0) 0 (some t1)) tp.1
+            * selB p labels dist c K a (fun _ => 1) 1 tp.2
+          - (fun t1 => selB p labels dist c K (a.set i 1) (fun _ => 1) 0 (some t1)) tp.1
+            * selB p labels dist c K a (fun T => utilJ.getD (argmaxFirst T) 0) nullJ tp.2)) := by
+    apply List.map_congr_left
+    intro tp _
+    exact pairTerm_factor p labels dist utilJ nullJ c K i a tp
+  rw [e, boundaryPairs_eq,
+    sum_pairs (List.range p.data.length) (bnds p.data.length)
+      (fun t1 => selB p labels dist c K (a.set i 1) (fun T => utilJ.getD (argmaxFirst T) 0) 0 (some t1))
+      (fun t1 => selB p labels dist c K (a.set i 1) (fun _ => 1) 0 (some t1))
+      (selB p labels dist c K a (fun _ => 1) 1)
+      (selB p labels dist c K a (fun T => utilJ.getD (argmaxFirst T) 0) nullJ),
+    sum_bnds, sum_bnds]
+  simp only [selB]
+  rw [sel_some p labels dist order c K (a.set i 1) hK hp hs hlab (fun T => utilJ.getD (argmaxFirst T) 0),
+    sel_some p labels dist order c K (a.set i 1) hK hp hs hlab (fun _ => 1),
+    sel_some p labels dist order c K a hK hp hs hlab (fun T => utilJ.getD (argmaxFirst T) 0),
+    sel_some p labels dist order c K a hK hp hs hlab (fun _ => 1),
+    tallyOf_none_sum p labels dist c a hlab, knnValue_eq' _ _ _ _ _ _ _ _ hp, knnValue_eq' _ _ _ _ _ _ _ _ hp]
+  have hmono := presentRows_length_set p a i
+  by_cases h1 : K ≤ (presentRows p (a.set i 1)).length
+  · by_cases h2 : K ≤ (presentRows p a).length
+    · have h3 : ¬ (presentRows p a).length < K := by omega
+      simp only [if_pos h1, if_pos h2, if_neg h3]; ring
+    · have h3 : (presentRows p a).length < K := by omega
+      simp only [if_pos h1, if_neg h2, if_pos h3]; ring
+  · have h2 : ¬ K ≤ (presentRows p a).length := by omega
+    have h3 : (presentRows p a).length < K := by omega
+    simp only [if_neg h1, if_neg h2, if_pos h3]; ring
+
+/-! ### the oracle hypothesis and the value of `pointUnit` -/
+
+/-- **Oracle hypothesis** (what property C09 provides): every query with a row as `with` boundary and a
+row or `None` as `without` boundary returns one count per domain value, and the count of the `k`-th
+valid tally is the by-definition count `countSpec`. -/
+def OracleSpec (p : Prov.P) (labels : List ℕ) (dist : List ℚ) (K c : ℕ)
+    (b : Built (Dom.tally (p.nUnits - 1) K c)) (i : ℕ) : Prop :=
+  ∀ t1 < p.data.length, ∀ t2 : Option ℕ, (∀ t, t2 = some t → t < p.data.length) →
+    ∃ counts : List ℤ, query c b p.data.length i (some t1) t2 = .ok counts ∧
+      counts.length = (Dom.tally (p.nUnits - 1) K c).vecs.length + 1 ∧
+      ∀ k (hk : k < (Dom.tally (p.nUnits - 1) K c).vecs.length),
+        counts.getD k 0 =
+          ((countSpec p labels dist c K i (some t1) t2
+            (((Dom.tally (p.nUnits - 1) K c).vecs[k]).headD 0)
+            ((((Dom.tally (p.nUnits - 1) K c).vecs[k]).drop 1).take c)
+            ((((Dom.tally (p.nUnits - 1) K c).vecs[k]).drop (1 + c)).take c) : ℕ) : ℤ)
+
+theorem zip_map_spec {α : Type} (l : List α) (cs : List ℤ) (s : α → ℤ) (F : α → ℤ → ℚ)
+    (h1 : l.length ≤ cs.length) (h2 : ∀ k (hk : k < l.length), cs.getD k 0 = s l[k]) :
+    (l.zip cs).map (fun vc => F vc.1 vc.2) = l.map (fun v => F v (s v)) := by
+  apply List.ext_getElem
+  · simp; omega
+  · intro k hk1 hk2
+    have hk : k < l.length := by simpa using hk2
+    have hc : k < cs.length := by omega
+    have := h2 k hk
+    rw [List.getD_eq_getElem?_getD, List.getElem?_eq_getElem hc, Option.getD_some] at this
+    simp [this]
+
+theorem pointUnit_value (p : Prov.P) (labels : List ℕ) (dist : List ℚ) (K c : ℕ)
+    (b : Built (Dom.tally (p.nUnits - 1) K c)) (utilJ : List ℚ) (nullJ : ℚ) (i : ℕ)
+    (hq : OracleSpec p labels dist K c b i) :
+    pointUnit p.nUnits K c p.data.length b utilJ nullJ i
+      = .ok (((boundaryPairs p.data.length).map (fun tp =>
+          ((Dom.tally (p.nUnits - 1) K c).vecs.map (fun vec =>
+            term p.nUnits K c utilJ nullJ tp.2 vec
+              ((countSpec p labels dist c K i (some tp.1) tp.2 (vT vec) (vW c vec) (vWo c vec) : ℕ) : ℤ))).sum)).sum) := by
+  unfold pointUnit
+  rw [Prov.mapM_ok_of _ (fun tp =>
+          ((Dom.tally (p.nUnits - 1) K c).vecs.map (fun vec =>
+            term p.nUnits K c utilJ nullJ tp.2 vec
+              ((countSpec p labels dist c K i (some tp.1) tp.2 (vT vec) (vW c vec) (vWo c vec) : ℕ) : ℤ))).sum)]
+  · rfl
+  · intro tp htp
+    obtain ⟨h1, h2⟩ := (mem_boundaryPairs _ tp).mp htp
+    obtain ⟨counts, hc1, hc2, hc3⟩ := hq tp.1 h1 tp.2 h2
+    rw [hc1]
+    show Except.ok _ = Except.ok _
+    congr 2
+    exact zip_map_spec _ counts
+      (fun vec => ((countSpec p labels dist c K i (some tp.1) tp.2 (vT vec) (vW c vec) (vWo c vec) : ℕ) : ℤ))
+      (fun vec cnt => term p.nUnits K c utilJ nullJ tp.2 vec cnt) (by omega) hc3
+
+/-! ### exchange of summation: from boundary pairs and tallies to coalitions -/
+
+theorem countP_cast {α : Type} (q : α → Bool) (l : List α) :
+    ((l.countP q : ℕ) : ℚ) = (l.map (fun a => if q a = true then (1 : ℚ) else 0)).sum := by
+  induction l with
+  | nil => simp
+  | cons x l ih =>
+    rw [List.countP_cons, List.map_cons, List.sum_cons, ← ih]
+    by_cases h : q x = true <;> simp [h]; ring
+
+/-- coalitions without the target unit, as the code enumerates them -/
+def coalitions (n i : ℕ) : List (List ℕ) := (allAssign n).filter (fun a => a.getD i 0 == 0)
+
+theorem sum_le_of_coalition {n i : ℕ} (hi : i < n) {a : List ℕ} (ha : a ∈ coalitions n i) : a.sum ≤ n - 1 := by
+  unfold coalitions at ha
+  rw [List.mem_filter] at ha
+  obtain ⟨ha1, ha2⟩ := ha
+  rw [← BruteP.card_toSet ha1]
+  have hsub : BruteP.toSet n a ⊆ (Finset.univ.erase (⟨i, hi⟩ : Fin n)) := by
+    intro j hj
+    rw [Finset.mem_erase]
+    refine ⟨?_, Finset.mem_univ _⟩
+    rintro rfl
+    simp only [BruteP.toSet, Finset.mem_filter, Finset.mem_univ, true_and] at hj
+    simp only [beq_iff_eq] at ha2
+    omega
+  have := Finset.card_le_card hsub
+  rw [Finset.card_erase_of_mem (Finset.mem_univ _), Finset.card_univ, Fintype.card_fin] at this
+  exact this
+
+theorem pointUnit_sum (p : Prov.P) (labels : List ℕ) (dist : List ℚ) (order : List ℕ) (K c : ℕ)
+    (utilJ : List ℚ) (nullJ : ℚ) (i : ℕ) (hi : i < p.nUnits) (hK : 1 ≤ K)
+    (hp : order.Perm (List.range p.data.length))
+    (hs : order.Pairwise (fun r s => dist.getD r 0 < dist.getD s 0))
+    (hlab : ∀ r < p.data.length, labels.getD r 0 < c) :
+    ((boundaryPairs p.data.length).map (fun tp =>
+          ((Dom.tally (p.nUnits - 1) K c).vecs.map (fun vec =>
+            term p.nUnits K c utilJ nullJ tp.2 vec
+              ((countSpec p labels dist c K i (some tp.1) tp.2 (vT vec) (vW c vec) (vWo c vec) : ℕ) : ℤ))).sum)).sum
+      = ((coalitions p.nUnits i).map (fun a => (1 / ((choose (p.nUnits - 1) a.sum : ℕ) : ℚ)) *
+          (knnValue p labels order utilJ nullJ K c (a.set i 1) - knnValue p labels order utilJ nullJ K c a))).sum := by
+  -- the count is a sum of indicators
+  have e1 : ∀ (tp : ℕ × Option ℕ) (vec : List ℕ),
+      term p.nUnits K c utilJ nullJ tp.2 vec
+          ((countSpec p labels dist c K i (some tp.1) tp.2 (vT vec) (vW c vec) (vWo c vec) : ℕ) : ℤ)
+        = ((coalitions p.nUnits i).map (fun a =>
+            (if ind p labels dist c K i (some tp.1) tp.2 (vT vec) (vW c vec) (vWo c vec) a = true then (1 : ℚ) else 0)
+              * termUnit p.nUnits K c utilJ nullJ tp.2 vec)).sum := by
+    intro tp vec
+    rw [term_eq, countSpec_eq, countP_cast, ← List.sum_map_mul_right]
+    rfl
+  simp only [e1]
+  -- exchange the order of summation
+  have e2 : ∀ tp : ℕ × Option ℕ,
+      ((Dom.tally (p.nUnits - 1) K c).vecs.map (fun vec => ((coalitions p.nUnits i).map (fun a =>
+            (if ind p labels dist c K i (some tp.1) tp.2 (vT vec) (vW c vec) (vWo c vec) a = true then (1 : ℚ) else 0)
+              * termUnit p.nUnits K c utilJ nullJ tp.2 vec)).sum)).sum
+        = ((coalitions p.nUnits i).map (fun a => ((Dom.tally (p.nUnits - 1) K c).vecs.map (fun vec =>
+            (if ind p labels dist c K i (some tp.1) tp.2 (vT vec) (vW c vec) (vWo c vec) a = true then (1 : ℚ) else 0)
+              * termUnit p.nUnits K c utilJ nullJ tp.2 vec)).sum)).sum := fun tp => sum_map_comm _ _ _
+  simp only [e2]
+  rw [sum_map_comm]
+  apply congrArg List.sum
+  apply List.map_congr_left
+  intro a ha
+  rw [← contrib p labels dist order utilJ nullJ c K i a hK hp hs hlab]
+  apply congrArg List.sum
+  apply List.map_congr_left
+  intro tp _
+  rw [vec_collapse p labels dist c K i tp.1 tp.2 a _ (sum_le_of_coalition hi ha)]
+  rfl
+
+/-! ### from the enumeration of coalitions to the marginal form of the Shapley value -/
+
+theorem allAssign_getElem {n : ℕ} {a : List ℕ} (ha : a ∈ allAssign n) (k : ℕ) (hk : k < a.length) :
+    a[k] = 0 ∨ a[k] = 1 := (BruteP.mem_allAssign ha).2 _ (List.getElem_mem hk)
+
+theorem ofSet_toSet {n : ℕ} {a : List ℕ} (ha : a ∈ allAssign n) : BruteP.ofSet (BruteP.toSet n a) = a := by
+  have hl := (BruteP.mem_allAssign ha).1
+  apply List.ext_getElem
+  · simp [BruteP.ofSet, hl]
+  · intro k h1 h2
+    have h01 := allAssign_getElem ha k h2
+    simp only [BruteP.ofSet, List.getElem_ofFn, BruteP.toSet, Finset.mem_filter, Finset.mem_univ, true_and,
+      List.getD_eq_getElem?_getD, List.getElem?_eq_getElem h2, Option.getD_some]
+    rcases h01 with e | e <;> simp [e]
+
+theorem set_eq_ofSet {n : ℕ} {a : List ℕ} (ha : a ∈ allAssign n) (i : Fin n) :
+    a.set i.val 1 = BruteP.ofSet (insert i (BruteP.toSet n a)) := by
+  have hl := (BruteP.mem_allAssign ha).1
+  apply List.ext_getElem
+  · simp [BruteP.ofSet, hl]
+  · intro k h1 h2
+    have hk : k < a.length := by simpa using h1
+    have h01 := allAssign_getElem ha k hk
+    simp only [BruteP.ofSet, List.getElem_ofFn, BruteP.toSet, Finset.mem_insert, Finset.mem_filter,
+      Finset.mem_univ, true_and, List.getD_eq_getElem?_getD, List.getElem?_eq_getElem hk, Option.getD_some,
+      List.getElem_set, Fin.ext_iff]
+    by_cases hik : i.val = k
+    · simp [hik]
+    · have : ¬ k = i.val := fun h => hik h.symm
+      rcases h01 with e | e <;> simp [e, hik, this]
+
+theorem coalition_sum_eq_phiM (n : ℕ) (val : List ℕ → ℚ) (i : Fin n) :
+    ((coalitions n i.val).map (fun a => (1 / ((choose (n - 1) a.sum : ℕ) : ℚ)) * (val (a.set i.val 1) - val a))).sum
+      = (n : ℚ) * Sh.phiM (fun S => val (BruteP.ofSet S)) i := by
+  classical
+  have hn : (n : ℚ) ≠ 0 := by
+    have : 0 < n := i.pos
+    exact_mod_cast this.ne'
+  unfold coalitions
+  rw [sum_map_filter]
+  have e : ∀ a ∈ allAssign n,
+      (if (a.getD i.val 0 == 0) = true
+        then (1 / ((choose (n - 1) a.sum : ℕ) : ℚ)) * (val (a.set i.val 1) - val a) else 0)
+      = (fun S : Finset (Fin n) => if i ∈ S then 0
+          else (n : ℚ) * (Sh.w n S.card * (val (BruteP.ofSet (insert i S)) - val (BruteP.ofSet S))))
+        (BruteP.toSet n a) := by
+    intro a ha
+    have hl := (BruteP.mem_allAssign ha).1
+    have hil : i.val < a.length := by rw [hl]; exact i.isLt
+    have h01 := allAssign_getElem ha i.val hil
+    have hmem : i ∈ BruteP.toSet n a ↔ a[i.val] = 1 := by
+      simp [BruteP.toSet, List.getD_eq_getElem?_getD, List.getElem?_eq_getElem hil]
+    have hg : a.getD i.val 0 = a[i.val] := by
+      simp [List.getD_eq_getElem?_getD, List.getElem?_eq_getElem hil]
+    simp only [hg, beq_iff_eq]
+    rcases h01 with e0 | e1
+    · have hni : i ∉ BruteP.toSet n a := by rw [hmem, e0]; simp
+      rw [if_pos e0, if_neg hni, ← set_eq_ofSet ha i, ofSet_toSet ha, BruteP.card_toSet ha, BruteP.choose_eq]
+      have hlt : a.sum + 1 ≤ n := by
+        have hc : (BruteP.toSet n a).card < n := by
+          have : BruteP.toSet n a ⊂ Finset.univ := by
+            rw [Finset.ssubset_univ_iff]; intro h; rw [h] at hni; exact hni (Finset.mem_univ i)
+          simpa using Finset.card_lt_card this
+        rw [BruteP.card_toSet ha] at hc; omega
+      rw [BruteP.w_eq n a.sum hlt]
+      have hc : (((n - 1).choose a.sum : ℕ) : ℚ) ≠ 0 := by
+        exact_mod_cast (Nat.choose_pos (by omega)).ne'
+      field_simp
+    · have hi' : i ∈ BruteP.toSet n a := hmem.mpr e1
+      rw [if_neg (by rw [e1]; simp), if_pos hi']
+  rw [List.map_congr_left e, BruteP.sum_allAssign n (fun S : Finset (Fin n) => if i ∈ S then 0
+          else (n : ℚ) * (Sh.w n S.card * (val (BruteP.ofSet (insert i S)) - val (BruteP.ofSet S))))]
+  unfold Sh.phiM
+  rw [Finset.mul_sum, Finset.sum_ite, Finset.sum_const_zero, zero_add]
+  have hnot : (univ.filter (fun S : Finset (Fin n) => ¬ i ∈ S)) = (univ.erase i).powerset := by
+    ext S; simp [Finset.mem_powerset, Finset.subset_erase]
+  rw [hnot]
+
+/-! ### the K-NN game and the two main statements -/
+
+/-- **The K-NN utility game of one validation point** over the units `0 … n-1` of a (conjunctive)
+provenance: the value of a coalition `S` is `Ds.Oracle.knnValue` on the indicator list of `S`, i.e. the
+utility of the majority label (lowest class on ties) among the `K` nearest rows all of whose units are
+in `S`, and the null value when fewer than `K` rows are present. -/
+def knnGame (p : Prov.P) (labels order : List ℕ) (util : List ℚ) (null : ℚ) (K c : ℕ) : Sh.Game p.nUnits :=
+  fun S => knnValue p labels order util null K c (BruteP.ofSet S)
+
+theorem point_core (p : Prov.P) (labels : List ℕ) (dist : List ℚ) (order : List ℕ) (K c : ℕ)
+    (b : Built (Dom.tally (p.nUnits - 1) K c)) (utilJ : List ℚ) (nullJ : ℚ) (i : Fin p.nUnits)
+    (hK : 1 ≤ K) (hp : order.Perm (List.range p.data.length))
+    (hs : order.Pairwise (fun r s => dist.getD r 0 < dist.getD s 0))
+    (hlab : ∀ r < p.data.length, labels.getD r 0 < c)
+    (hq : OracleSpec p labels dist K c b i.val) :
+    pointUnit p.nUnits K c p.data.length b utilJ nullJ i.val
+      = .ok ((p.nUnits : ℚ) * Sh.phiM (knnGame p labels order utilJ nullJ K c) i) := by
+  rw [pointUnit_value p labels dist K c b utilJ nullJ i.val hq,
+    pointUnit_sum p labels dist order K c utilJ nullJ i.val i.isLt hK hp hs hlab,
+    coalition_sum_eq_phiM p.nUnits (knnValue p labels order utilJ nullJ K c) i]
+  rfl
+
+theorem bind_ok {α β : Type} (a : α) (f : α → Except Err β) : (Except.ok a >>= f) = f a := rfl
+
+theorem getD_range_map' {n : ℕ} (f : ℕ → ℚ) {i : ℕ} (hi : i < n) :
+    ((List.range n).map f).getD i 0 = f i := by
+  simp [List.getD_eq_getElem?_getD, hi]
+
+theorem scores_value (p : Prov.P) (labels : List ℕ) (dist util : List (List ℚ)) (nulls : List ℚ) (K c : ℕ)
+    (orders : ℕ → List ℕ) (hK : 1 ≤ K)
+    (hp : ∀ j < nulls.length, (orders j).Perm (List.range p.data.length))
+    (hs : ∀ j < nulls.length,
+      (orders j).Pairwise (fun r s => (dist.map (·.getD j 0)).getD r 0 < (dist.map (·.getD j 0)).getD s 0))
+    (hlab : ∀ r < p.data.length, labels.getD r 0 < c)
+    (hb : ∀ j < nulls.length, ∃ b : Built (Dom.tally (p.nUnits - 1) K c),
+      build (Dom.tally (p.nUnits - 1) K c) c p labels (dist.map (·.getD j 0)) = .ok b ∧
+        ∀ i < p.nUnits, OracleSpec p labels (dist.map (·.getD j 0)) K c b i) :
+    scores p labels dist util nulls K c
+      = .ok ((List.range p.nUnits).map (fun i =>
+          (((List.range nulls.length).map (fun j => (List.range p.nUnits).map (fun i =>
+              if h : i < p.nUnits then (p.nUnits : ℚ) *
+                Sh.phiM (knnGame p labels (orders j) (util.map (·.getD j 0)) (nulls.getD j 0) K c) ⟨i, h⟩
+              else 0))).map (·.getD i 0)).sum / (((p.nUnits * nulls.length : ℕ)) : ℚ))) := by
+  simp only [scores]
+  rw [Prov.mapM_ok_of _ (fun j => (List.range p.nUnits).map (fun i =>
+              if h : i < p.nUnits then (p.nUnits : ℚ) *
+                Sh.phiM (knnGame p labels (orders j) (util.map (·.getD j 0)) (nulls.getD j 0) K c) ⟨i, h⟩
+              else 0))]
+  · rfl
+  · intro j hj
+    have hj' : j < nulls.length := List.mem_range.mp hj
+    obtain ⟨b, hb1, hb2⟩ := hb j hj'
+    rw [hb1, bind_ok]
+    apply Prov.mapM_ok_of
+    intro i hi
+    have hi' : i < p.nUnits := List.mem_range.mp hi
+    have hs' := hs j hj'
+    have hp' := hp j hj'
+    have hq' := hb2 i hi'
+    generalize dist.map (·.getD j 0) = dj at hs' hq'
+    have hpc := point_core p labels dj (orders j) K c b (util.map (·.getD j 0))
+      (nulls.getD j 0) ⟨i, hi'⟩ hK hp' hs' hlab hq'
+    rw [dif_pos hi']
+    exact hpc
+
+/-- entry `i` of the closed form of `scores_value` is the Shapley value of the mean game -/
+theorem mean_entry (n m : ℕ) (g : ℕ → Sh.Game n) (i : Fin n) :
+    (((List.range m).map (fun j => (List.range n).map (fun i =>
+        if h : i < n then (n : ℚ) * Sh.phiM (g j) ⟨i, h⟩ else 0))).map (·.getD i.val 0)).sum
+          / (((n * m : ℕ)) : ℚ)
+      = Sh.phiM (fun S => (∑ j ∈ Finset.range m, g j S) / (m : ℚ)) i := by
+  have hn : (n : ℚ) ≠ 0 := by
+    have : 0 < n := i.pos
+    exact_mod_cast this.ne'
+  have hg : (fun S : Finset (Fin n) => (∑ j ∈ Finset.range m, g j S) / (m : ℚ))
+      = fun S => (1 / (m : ℚ)) * ∑ j ∈ Finset.range m, g j S := by
+    funext S; ring
+  rw [hg, Sh.phiM_eq_phi, Sh.phi_smul, Sh.phi_sum, List.map_map]
+  have e : ((fun x : List ℚ => x.getD i.val 0) ∘ fun j => (List.range n).map (fun i =>
+        if h : i < n then (n : ℚ) * Sh.phiM (g j) ⟨i, h⟩ else 0))
+      = fun j => (n : ℚ) * Sh.phi (g j) i := by
+    funext j
+    simp only [Function.comp]
+    rw [getD_range_map' _ i.isLt, dif_pos i.isLt, Sh.phiM_eq_phi]
+  rw [e, sum_map_mul_left', BruteP.sum_range_map, Nat.cast_mul, ← div_div, mul_div_cancel_left₀ _ hn]
+  ring
 
 end AddPath
